@@ -9,6 +9,7 @@ import (
 	"sort"
 	"strings"
 	"testing"
+	"testing/synctest"
 	"time"
 
 	"github.com/prometheus/client_golang/prometheus"
@@ -282,3 +283,25 @@ func TestFullStateExchange(t *testing.T) {
 }
 
 var _ = model.Labels{}
+
+// "If two instances have received the same set of silence updates ... they hold the same silences":
+// also when one of them started from a snapshot with records the collector has to throw away.
+func TestGCAfterDamagedEntries(t *testing.T) {
+	run := vf.Cur()
+	sub := run.Sub("gc-after-damaged-snapshot-entries", "two real silence stores in a virtual-time bubble: A is loaded from a snapshot holding 1-5 valid silences and 1-2 records without an expiry timestamp (the case the collector reports as an error and removes) in random order, B from the same snapshot without them; 3-5 rounds of creations on either side delivered to the other, up to 40 min of virtual time and a collection on both; after every collection the damaged records are gone, A and B hold identical content for every id, everything whose end + retention has not passed is still held by both, and Mutes equals the brute-force verdict on both; non-trivial = every case; distinct by (seed)", 50)
+	n := run.N(200, 20000)
+	vf.Parallel(t, n, 16, func(t *testing.T, i int) {
+		r := sub.Rand(i)
+		synctest.Test(t, func(t *testing.T) {
+			sig, detail, counters := silh.GCAfterDamagedEntries(r, retention)
+			for k, v := range counters {
+				sub.Count(k, v)
+			}
+			if sig != "" {
+				detail["seed"] = sub.Seed(i)
+				sub.Violation(sig, detail)
+			}
+		})
+		sub.Case(vf.Digest(sub.Seed(i)), true)
+	})
+}
